@@ -1039,7 +1039,14 @@ class ChannelFactory:
         if item is not None:
             callback, endmarker, _strconfig = item
             if endmarker is not NO_ENDMARKER_WANTED:
-                callback(endmarker)
+                try:
+                    callback(endmarker)
+                except Exception as exc:
+                    # the channel is closed already, nobody is left to be
+                    # told: a failing callback must not take its caller
+                    # (usually the receiver thread) down with it
+                    self.gateway._trace("exception in endmarker callback: %s" % exc)
+                    RemoteError(self.gateway._geterrortext(exc)).warn()
 
     def _local_close(self, id: int, remoteerror=None, sendonly: bool = False) -> None:
         channel = self._channels.get(id)
